@@ -131,6 +131,7 @@ func (i *interpreter) resolveExternal(fn *ssa.Function) externalFn {
 				return false
 			}
 			m.holder = fr.th
+			fr.th.held = append(fr.th.held, m.id)
 			i.logEvent(fr.th, "lock", m.id, 0, m.name, fr)
 			return true
 		}
